@@ -762,6 +762,14 @@ func init() {
 						x := c18Doubles(rr)
 						c18Number(r, strconv.FormatFloat(x, byte("efg"[rr.Intn(3)]), rr.Range(-1, 8), 64))
 					case 2, 3:
+						if rr.Intn(12) == 0 {
+							// the largest double below one half, at precision p: adding 0.5
+							// to it gives exactly 1
+							p := rr.Range(-3, 6)
+							x, _ := strconv.ParseFloat(fmt.Sprintf("%s49999999999999994e%d", rr.Pick("", "-"), -17-p), 64)
+							c18Round(r, x, p, p != 0 || rr.Bool())
+							break
+						}
 						if rr.Intn(6) == 0 {
 							// |x| * 10^p an integer (odd or even) in [2^52, 2^53): the scaled
 							// value is already integral and adding 0.5 to it is not exact
